@@ -614,7 +614,16 @@ def orc_loo(case):
     vecs = _data(case)
     labels = case.get('labels')
     spec_labels = list(labels) if labels is not None else list(range(len(vecs)))
-    lower, upper = _boot(vecs, method, labels, style=case)
+    if case.get('draw') is not None:
+        # a bootstrap resample of the stack (RDMs.subsample by the default 'index'): copies of one RDM share their index value and
+        # form ONE group for the default grouping of the ceiling
+        draw = [int(i) for i in case['draw']]
+        sample = _mk_rdms(vecs, None, style=case).subsample('index', draw)
+        lower, upper = _boot_rd(sample, method, False)
+        vecs = np.asarray(vecs)[draw]
+        spec_labels = list(draw)
+    else:
+        lower, upper = _boot(vecs, method, labels, style=case)
     lo_rng, up_rng = _spec_bounds(method, vecs, spec_labels, nc)
     if not _in_range(lower, lo_rng, _tol(case)):
         return (f'lower bound {lower:.12g} != average over the {len(set(spec_labels))} left-out groups {_fmt(lo_rng)} '
@@ -1176,6 +1185,11 @@ def tier_c(run, thorough):
             for method in OPT_METHODS:
                 case = dict(seed=seed, n_rdm=n, n_cond=6, kind='pos' if seed % 2 else 'int', method=method, labels=labels)
                 bd.check(orc_loo, case, _ic(method, case, labels), function='boot_noise_ceiling')
+    # ceilings of bootstrap resamples of the stack (default grouping by 'index': the copies of one RDM are one group)
+    for k, draw in enumerate(([0, 0, 2, 3, 3], [4, 1, 1, 1, 0, 2], [3, 3, 0, 0, 1])):
+        for method in OPT_METHODS:
+            case = dict(seed=40 + k, n_rdm=5, n_cond=5 + k % 2, kind='pos' if k % 2 else 'int', method=method, draw=draw)
+            bd.check(orc_loo, case, f'{method},resampled-stack,default-index-grouping', function='boot_noise_ceiling')
     bd.done()
     bds.append(bd)
 
